@@ -4,6 +4,8 @@
 # ---------------------------------------------------------------------------------------------------------------------------------
 # What the oracle checks (every CANSendFrame call - accepted or refused - counts as a transmission: the library decided to transmit):
 #   listen-only   mode 0: no call at all, every application send returns false
+#                   - after a run-time SetMode to listen-only (`M 0 ..`) that followed a refused driver call, at most queue-capacity
+#                     frames may still leave:  key  listen-only:queued-frame-flushed  (the send queue is not purged; D-05 root cause)
 #   not-open      no call in an operation that precedes the one in which Open() completed (note:open)
 #   settle        no call earlier than 200 ms after the first operation that can have opened the CAN interface
 #   the gate      each frame is judged against the state of the devices AT THE TIME IT WAS PRODUCED (handed to SendFrame) and AT THE
@@ -297,6 +299,10 @@ def make_oracle(fs, stats=None):
         cap = cfg.get('q', 40) * ndev - 1  # frames the send queue can hold
         head = None                     # known head of the send queue: (frame, candidate snapshots)
         gaps = []                       # snapshots right after refused attempts (a silent enqueue may have followed)
+        refused_seen = False            # the driver has refused a frame: the send queue may hold frames
+        switched_with_backlog = False   # run-time SetMode to listen-only with a possibly non-empty send queue
+        flushed_after_switch = 0
+        late = []                       # verdicts about frames queued before a run-time switch to listen-only
         stats.bump('cases')
 
         def judge(e, k, cur, alt=None):
@@ -356,7 +362,15 @@ def make_oracle(fs, stats=None):
             txs = [e for e in evs if e[0] == 'tx']
             has_open = any(e[0] == 'note' and e[1:] == ('open',) for e in evs)
             if mode == 0 and txs:
-                hard.append('listen-only:op %d hands %d frame(s) to the driver in listen-only mode' % (k, len(txs)))
+                if switched_with_backlog and flushed_after_switch + len(txs) <= cap:
+                    # a run-time SetMode to listen-only while frames accepted earlier may still wait in the send queue: the queue is not
+                    # purged (root cause of D-05), the frames leave at the next flush.  Known finding, key listen-only:queued-frame-flushed.
+                    flushed_after_switch += sum(1 for e in txs if e[4])
+                    late.append('listen-only:queued-frame-flushed: op %d: %d frame(s) accepted before the run-time switch to listen-only left the send queue afterwards' % (k, len(txs)))
+                else:
+                    hard.append('listen-only:op %d hands %d frame(s) to the driver in listen-only mode' % (k, len(txs)))
+            if any(not e[4] for e in txs):
+                refused_seen = True
             if o[0] == 'T':
                 tr.now += int(o[1])
                 continue
@@ -559,6 +573,9 @@ def make_oracle(fs, stats=None):
             if o[0] == 'M' and len(o) >= 3:
                 # SetMode after initialisation: the application overwrites mode and addresses without announcing them - from here on the
                 # address bookkeeping of this oracle has no meaning; the mode-based rules follow the new mode
+                if int(o[1]) == 0 and mode != 0:
+                    switched_with_backlog = refused_seen     # without a refused driver call the queue is certainly empty
+                    flushed_after_switch = 0
                 mode = int(o[1])
                 tr.mode = mode
                 untracked = True
@@ -587,6 +604,9 @@ def make_oracle(fs, stats=None):
         if desync:
             stats.bump('desync' if not untracked else 'untracked')
             soft = []
+        if late and not (hard or soft):
+            stats.bump('fail:listen-only-queued')
+            return late[0]
         if hard or soft:
             allv = hard + soft
             # report the most specific failure first: gate violations before queue findings
